@@ -527,6 +527,8 @@ def std_check(run, cfg):
             samples += smp[:2]
             if not mism:
                 continue
+            # property-level (api) mismatches first: only the first few mismatching cases are shrunk
+            mism.sort(key=lambda m: 0 if m.get("kind", "api").startswith("api") else 1)
             lines = open(tp, errors="replace").read().split("\n")
             lines = [l for l in lines if l.strip() and not l.startswith("#")]
             seen_lines = set()
